@@ -766,12 +766,26 @@ def r20_3(ctx, rr):
 def r07_6(ctx, rr):
     F = ctx.F()
     # --- stack discipline: cursor fields are the only notion of length
+    # fields by role, not by name: the buffer is the one non-integer field, the cursors are the usize fields; which
+    # cursor is the lower / upper one is read off the two push methods themselves
+    def cursors(adt):
+        a_ = F.adts.get(adt)
+        if not a_:
+            raise AnchorMissing("no struct %s" % adt)
+        fl = a_["variants"][0]["fields"]
+        ints = [f_["name"] for f_ in fl if F.types[f_["t"]] == "usize"]
+        bufs = [f_["name"] for f_ in fl if F.types[f_["t"]] != "usize"]
+        return ints, bufs
+    fs_ints, fs_bufs = cursors("func::vbuilder::FastStack")
+    if len(fs_ints) != 1 or len(fs_bufs) != 1:
+        raise AnchorMissing("FastStack: expected one buffer and one cursor field")
+    TOP = fs_ints[0]
     fs_len = F.one(r"^func::vbuilder::FastStack::<X>::len$")
     fs_push = F.one(r"^func::vbuilder::FastStack::<X>::push$")
     s = ("var", "self", fs_len.params[0]["id"])
     t = Termizer(F, fs_len).term(fs_len.body)
     rr.instances += 1
-    rr.check(t == ("field", s, "top"), "FastStack::len", "FastStack::len must be the number of elements pushed (`self.top`), not the capacity of the preallocated buffer; found %s" % tshow(t), fs_len.span)
+    rr.check(t == ("field", s, TOP), "FastStack::len", "FastStack::len must be the number of elements pushed (the cursor `self.%s`), not the capacity of the preallocated buffer; found %s" % (TOP, tshow(t)), fs_len.span)
     ps = ("var", "self", fs_push.params[0]["id"])
     px = ("var", fs_push.params[1]["name"], fs_push.params[1]["id"])
     ev = []
@@ -785,20 +799,18 @@ def r07_6(ctx, rr):
             ev.append((n["op"], W.T.term(n["l"]), W.T.term(n["r"])))
     Walker(F, fs_push, on_node=on_node).run()
     rr.instances += 1
-    rr.check(ev == [("store", ("field", ps, "top"), px), ("+=", ("field", ps, "top"), ("int", 1))], "FastStack::push", "FastStack::push must store at index `top` and then increment `top` by one; found %s" % [(e[0], tshow(e[1]), tshow(e[2])) for e in ev], fs_push.span)
+    rr.check(ev == [("store", ("field", ps, TOP), px), ("+=", ("field", ps, TOP), ("int", 1))], "FastStack::push", "FastStack::push must store at index `%s` and then increment it by one; found %s" % (TOP, [(e[0], tshow(e[1]), tshow(e[2])) for e in ev]), fs_push.span)
     it = F.one(r"^func::vbuilder::FastStack::<X>::iter$")
     its = ("var", "self", it.params[0]["id"])
     tt = Termizer(F, it).term(it.body)
     rr.instances += 1
-    rr.check(mentions(tt, lambda x: x[0] == "struct" and dict(x[2]).get("end") == ("field", its, "top")), "FastStack::iter", "FastStack::iter must cover exactly the first `top` slots", it.span)
-    ul = F.one(r"^func::vbuilder::DoubleStack::<V>::upper_len$")
-    us = ("var", "self", ul.params[0]["id"])
-    ut = Termizer(F, ul).term(ul.body)
-    rr.instances += 1
-    rr.check(ut == mk_op("-", ("call", "len", (("field", us, "stack"),)), ("field", us, "upper")), "DoubleStack::upper_len", "DoubleStack::upper_len must be `stack.len() - upper`; found %s" % tshow(ut), ul.span)
-    for nm, want in (("push_lower", [("store", "lower"), ("+=", "lower")]), ("push_upper", [("-=", "upper"), ("store", "upper")])):
+    rr.check(mentions(tt, lambda x: x[0] == "struct" and dict(x[2]).get("end") == ("field", its, TOP)), "FastStack::iter", "FastStack::iter must cover exactly the first `%s` slots" % TOP, it.span)
+    ds_ints, ds_bufs = cursors("func::vbuilder::DoubleStack")
+    if len(ds_ints) != 2 or len(ds_bufs) != 1:
+        raise AnchorMissing("DoubleStack: expected one buffer and two cursor fields")
+    evs = {}
+    for nm in ("push_lower", "push_upper"):
         b = F.one(r"^func::vbuilder::DoubleStack::<V>::%s$" % nm)
-        bs = ("var", "self", b.params[0]["id"])
         ev = []
 
         def on_node2(W, n, K, ev=ev):
@@ -811,8 +823,22 @@ def r07_6(ctx, rr):
                 l = W.T.term(n["l"])
                 ev.append((n["op"], l[2] if l[0] == "field" else "?"))
         Walker(F, b, on_node=on_node2).run()
-        rr.instances += 1
-        rr.check(ev == want, "DoubleStack::%s" % nm, "DoubleStack::%s must %s; found %s" % (nm, "store at `lower` then increment it" if nm == "push_lower" else "decrement `upper` then store at it", ev), b.span)
+        evs[nm] = (ev, b)
+    # push_lower: store at a cursor, then increment the same cursor; push_upper: decrement the other cursor, then store at it
+    lo_ev, lo_b = evs["push_lower"]
+    up_ev, up_b = evs["push_upper"]
+    rr.instances += 1
+    ok_lo = len(lo_ev) == 2 and lo_ev[0][0] == "store" and lo_ev[1][0] == "+=" and lo_ev[0][1] == lo_ev[1][1] and lo_ev[0][1] in ds_ints
+    rr.check(ok_lo, "DoubleStack::push_lower", "DoubleStack::push_lower must store at its cursor and then increment it; found %s" % lo_ev, lo_b.span)
+    rr.instances += 1
+    ok_up = len(up_ev) == 2 and up_ev[0][0] == "-=" and up_ev[1][0] == "store" and up_ev[0][1] == up_ev[1][1] and up_ev[0][1] in ds_ints and (not ok_lo or up_ev[0][1] != lo_ev[0][1])
+    rr.check(ok_up, "DoubleStack::push_upper", "DoubleStack::push_upper must decrement its (other) cursor and then store at it; found %s" % up_ev, up_b.span)
+    UPPER = up_ev[0][1] if ok_up else None
+    ul = F.one(r"^func::vbuilder::DoubleStack::<V>::upper_len$")
+    us = ("var", "self", ul.params[0]["id"])
+    ut = Termizer(F, ul).term(ul.body)
+    rr.instances += 1
+    rr.check(UPPER is not None and ut == mk_op("-", ("call", "len", (("field", us, ds_bufs[0]),)), ("field", us, UPPER)), "DoubleStack::upper_len", "DoubleStack::upper_len must be `buffer.len() - <upper cursor>`; found %s" % tshow(ut), ul.span)
     # --- peel completeness: shard length compared with the number of peeled edges; mismatch leaves before assign
     for path, lenfn in ((r"^func::vbuilder::VBuilder::<W, D, S, E>::peel_by_index$", "DoubleStack::upper_len"),
                         (r"^func::vbuilder::VBuilder::<W, D, S, E>::peel_by_sig_vals_high_mem$", "FastStack::len"),
